@@ -35,8 +35,20 @@ def main():
     shard = json.load(open(shard_path))
     from vlib import reach
     sample_reach = getattr(mod, "REACH_SAMPLE", 10)
+    wdir = os.path.dirname(shard_path)
+
+    def claimed():
+        for c, chunk in enumerate(shard["chunks"]):
+            try:
+                fd = os.open(os.path.join(wdir, "claim%05d" % c), os.O_CREAT | os.O_EXCL | os.O_WRONLY)
+                os.close(fd)
+            except FileExistsError:
+                continue
+            for index, case in chunk:
+                yield index, case
+
     with open(out_path, "w") as out:
-        for n, (index, case) in enumerate(shard["cases"]):
+        for n, (index, case) in enumerate(claimed()):
             use_reach = sample_reach and (index % sample_reach == 0)
             if use_reach:
                 reach.start(repo)
